@@ -210,13 +210,42 @@ impl ast::IfStmt {
 
     // This is the `if` body, corresponding to the condition evaluating true.
     pub fn true_body_block_or_stmt(&self) -> BlockOrStmt {
-        if let Some(body) = self.then_branch_block() {
-            BlockOrStmt::BlockExpr(body)
-        } else if let Some(stmt) = self.then_branch_stmt() {
-            BlockOrStmt::Stmt(stmt)
-        } else {
-            panic!("Error in oq3_syntax");
+        match self.body_block_or_stmt(false) {
+            Some(body) => body,
+            None => panic!("Error in oq3_syntax"),
         }
+    }
+
+    // The bodies are located relative to the `else` keyword: the true body is the first block or
+    // statement after the condition and before `else`, the false body is the one after `else`.
+    // (Counting children by type cannot tell a single-statement true body from a single-statement
+    // false body.)
+    fn body_block_or_stmt(&self, after_else: bool) -> Option<BlockOrStmt> {
+        let mut seen_condition = false;
+        let mut seen_else = false;
+        for element in self.syntax().children_with_tokens() {
+            match element {
+                NodeOrToken::Token(token) => {
+                    if token.kind() == crate::SyntaxKind::ELSE_KW {
+                        seen_else = true;
+                    }
+                }
+                NodeOrToken::Node(node) => {
+                    if !seen_condition {
+                        seen_condition = true;
+                        continue;
+                    }
+                    if seen_else != after_else {
+                        continue;
+                    }
+                    if let Some(block) = ast::BlockExpr::cast(node.clone()) {
+                        return Some(BlockOrStmt::BlockExpr(block));
+                    }
+                    return ast::Stmt::cast(node).map(BlockOrStmt::Stmt);
+                }
+            }
+        }
+        None
     }
 
     // Return `Some` if the else branch is present and is a curly-delimited block.
@@ -235,11 +264,7 @@ impl ast::IfStmt {
     // This is the `else` body, corresponding to the condition evaluating false.
     // If there is no `else` body, return `None`.
     pub fn false_body_block_or_stmt(&self) -> Option<BlockOrStmt> {
-        if let Some(body) = self.else_branch_block() {
-            Some(BlockOrStmt::BlockExpr(body))
-        } else {
-            self.else_branch_stmt().map(BlockOrStmt::Stmt)
-        }
+        self.body_block_or_stmt(true)
     }
 
     // FIXME: this may have supported more than what is above.
